@@ -8,6 +8,7 @@ import (
 
 	"verif/harness/checks"
 	"verif/harness/vk"
+	"verif/harness/world"
 )
 
 func main() {
@@ -20,6 +21,8 @@ func main() {
 	tier := fs.String("tier", "", "quick|thorough")
 	replay := fs.String("replay", "", "replay file")
 	fs.Parse(os.Args[2:])
+	world.Calibrate()
+	world.FastRetries()
 	if id == "selftest" {
 		os.Exit(checks.Selftest())
 	}
